@@ -18,8 +18,17 @@ import H3.Spec.Framing
       `Spec.ControlRules` (stream header by RFC 9000 §16, control stream segmented by
       `Spec.Framing.observe`); `must`/`may` verdicts fork into alternatives.
 
-    Output: `closed=[codes] res=<results of A/W> U=<results of U> | build=… stops=[…] g=… pending=[…]`
-    `##` alternatives `closed=[c] res=… U=… **`.  -/
+    The endpoint's OWN setup streams (control, QPACK encoder, QPACK decoder) are part of the scenario:
+    stream credit (`uc=`, `gu<n>`), write credit (`wc=`, `gw<sid>:<n>`), the peer's STOP_SENDING
+    (`x<sid>:<c>`).  Model: `Setup.buildPoll` (the `build` future) and `Setup.pollWrite` /
+    `shutdownPlan` / `shutdownWrite` (the server's final GOAWAY, `accept` → `shutdown(0)`) over `ownTr`
+    (SimQuic); spec: `specSetup`, `finalAlts`, `Spec.ControlRules.ownStopped`.  With grease on the
+    length of the control stream header is random (`ctlHdrMin`..`ctlHdrMax`): a line on which that
+    matters prints `unsupported ## ?`.
+
+    Output: `closed=[codes] res=<results of A/W> U=<results of U> | build=ok|pending|err:<code> stops=[…] g=… pending=[…]`
+    `##` alternatives `closed=[c] res=… U=… **`.  Engine `ctlrfc`: the same, judged by
+    `Spec.ControlRules.verdictRfc` (RFC 9114 by the letter also for server push).  -/
 namespace H3.Drv.C04
 open H3.Drv H3.Control
 
@@ -721,6 +730,8 @@ structure SpecSt where
   /-- the pending `accept` has decided to answer "no more requests" and waits for its GOAWAY to be
       taken by the transport; it does not look at the peer's streams meanwhile -/
   waiting : Bool := false
+  /-- engine `ctlrfc`: judge by `verdictRfc` (RFC 9114 by the letter also for server push) -/
+  strict : Bool := false
   /-- the specification has no opinion on this line -/
   unknown : Bool := false
 deriving Repr
@@ -736,7 +747,7 @@ def SpecSt.peerEnd (s : SpecSt) (sid : Nat) (e : UniAccept.End) : SpecSt :=
 open H3.Spec.ControlRules in
 /-- apply one event under every way the verdict allows: `(state, died with code?)` -/
 def judge (s : SpecSt) (e : H3.Spec.ControlRules.Ev) : List SpecSt :=
-  match verdict s.rc.server s.st e with
+  match (if s.strict then verdictRfc s.rc.server s.st e else verdict s.rc.server s.st e) with
   | (.ok, st1) => [{ s with st := st1 }]
   | (.must cs, _) => cs.map fun c => { s with dead := some c }
   | (.may cs, st1) => (cs.map fun c => { s with dead := some c }) ++ [{ s with st := st1 }]
@@ -842,6 +853,14 @@ def specPush (n : OwnNet) : OwnNet :=
 
 def cutShort (s : OwnS) : Bool := s.stopped.isSome && decide (s.left > 0)
 
+open H3.Spec.ControlRules in
+/-- the alternatives a verdict on the endpoint's own streams leaves: go on (`none`) / die with a code -/
+def ownAlts : Verdict → List (Option Nat)
+  | .ok => [none]
+  | .must cs => cs.map some
+  | .may cs => none :: cs.map some
+
+open H3.Spec.ControlRules in
 def specSetup (s : SpecSt) : List SpecSt :=
   if s.setup != .running then [s] else
   let env := specPush (specOpen 3 s.env)
@@ -849,18 +868,20 @@ def specSetup (s : SpecSt) : List SpecSt :=
   let over := env.ss.length == 3 && env.ss.all (fun x => x.left == 0 || x.stopped.isSome)
   let ctlCut := (env.ss.take 1).any cutShort
   let qCut := (env.ss.drop 1).any cutShort
-  let failed : SpecSt := { s with setup := .failed, dead := some H3.Spec.ControlRules.H3_CLOSED_CRITICAL_STREAM }
-  if over then
-    if ctlCut then [failed]
-    else if qCut then [{ s with setup := .done }, failed]
-    else [{ s with setup := .done }]
-  else if ctlCut || qCut then [s, failed]
-  else [s]
+  let v : Verdict :=
+    if ctlCut then ownStopped .control over
+    else if qCut then ownStopped .qpack over
+    else .ok
+  (ownAlts v).filterMap fun a =>
+    match a with
+    | some c => some { s with setup := .failed, dead := some c }
+    | none => some (if over then { s with setup := .done } else s)
 
+open H3.Spec.ControlRules in
 /-- a server whose peer has sent GOAWAY answers `accept` with "no more requests"; h3 sends its own
     last GOAWAY first (API documentation of `accept`).  With the own control stream stopped that is
-    H3_CLOSED_CRITICAL_STREAM (`must`); without write credit for it the property does not say
-    whether the answer waits (both accepted, until the credit is there). -/
+    H3_CLOSED_CRITICAL_STREAM (`ownStopped .control true`); without write credit for it the property
+    does not say whether the answer waits (both accepted, until the credit is there). -/
 def finalAlts (x : SpecSt) : List (SpecSt × Option String) :=
   if x.finalSent then [(x, some "none")] else
   let sent := { x with finalSent := true, waiting := false }
@@ -868,11 +889,14 @@ def finalAlts (x : SpecSt) : List (SpecSt × Option String) :=
   | none => [(sent, some "none")]
   | some c =>
     if c.stopped.isSome then
-      [({ x with dead := some H3.Spec.ControlRules.H3_CLOSED_CRITICAL_STREAM },
-        some s!"err:{H3.Spec.ControlRules.H3_CLOSED_CRITICAL_STREAM}")]
+      (ownAlts (ownStopped .control true)).map fun a =>
+        match a with
+        | some e => ({ x with dead := some e }, some s!"err:{e}")
+        | none => (sent, some "none")
     else if (match c.credit with | none => true | some k => decide (k ≥ GOAWAY_LEN)) then [(sent, some "none")]
     else [(sent, some "none"), ({ x with waiting := true }, none)]
 
+open H3.Spec.ControlRules in
 /-- one poll of the driver, specification side -/
 def specPoll (s : SpecSt) : List (SpecSt × Option String) :=
   (if s.waiting then [s] else (streamPhase (s.streams.length + 1) s).flatMap ctlPhase).flatMap fun x =>
@@ -881,11 +905,12 @@ def specPoll (s : SpecSt) : List (SpecSt × Option String) :=
     | none =>
       -- one of the endpoint's own critical streams was stopped by the peer: an endpoint that
       -- notices may close the connection from now on
+      let v : Verdict :=
+        if (x.env.ss.take 1).any (·.stopped.isSome) then ownStopped .control false
+        else if x.env.ss.any (·.stopped.isSome) then ownStopped .qpack false
+        else .ok
       let stopAlt : List (SpecSt × Option String) :=
-        if x.env.ss.any (·.stopped.isSome) then
-          [({ x with dead := some H3.Spec.ControlRules.H3_CLOSED_CRITICAL_STREAM },
-            some s!"err:{H3.Spec.ControlRules.H3_CLOSED_CRITICAL_STREAM}")]
-        else []
+        (ownAlts v).filterMap fun a => a.map fun e => ({ x with dead := some e }, some s!"err:{e}")
       if x.rc.server && x.st.lastGoaway.isSome then finalAlts x ++ stopAlt
       else (x, none) :: stopAlt
 
@@ -941,8 +966,7 @@ def renderSpec (alts : List (SpecSt × Task)) : String :=
     s!"closed=[{closed}] res={renderList t.results ","} U={renderList t.us "/"} **"
   " || ".intercalate lines.eraseDups
 
-def handle : List String → String
-  | "ctl" :: role :: cfg :: ops =>
+def handleWith (strict : Bool) (role cfg : String) (ops : List String) : String :=
     if role != "server" && role != "client" then "bad-op" else
     let server := role == "server"
     match parseCfg server cfg with
@@ -955,9 +979,13 @@ def handle : List String → String
       let m := renderModel s t
       -- no definite model answer (an op outside the engine, an ambiguous header length): no opinion
       if m == "unsupported" then "unsupported ## ?" else
-      let sp0 : SpecSt := { rc := rc, env := OwnNet.init rc }
+      let sp0 : SpecSt := { rc := rc, env := OwnNet.init rc, strict := strict }
       let alts := runSpec ((specSetup sp0).map fun x => (x, {})) ops
       m ++ " ## " ++ renderSpec alts
+
+def handle : List String → String
+  | "ctl" :: role :: cfg :: ops => handleWith false role cfg ops
+  | "ctlrfc" :: role :: cfg :: ops => handleWith true role cfg ops
   | _ => "bad-op"
 
 end H3.Drv.C04
